@@ -11,6 +11,16 @@ A resolved revision is `Option Id` (`none` = base, Python's `None`).
 -/
 namespace Model.Rev
 
+/-- Python's `id_.split("@", 1)` when `"@" in id_` (written over character lists so that it
+    reduces in the kernel) -/
+def splitFirstAt (s : String) : Option String × String :=
+  match s.toList.span (· != '@') with
+  | (_, []) => (none, s)
+  | (pre, _ :: post) => (some (String.ofList pre), String.ofList post)
+
+/-- `str.startswith` -/
+def startsWithL (s p : String) : Bool := p.toList.isPrefixOf s.toList
+
 /-- keys of `_revision_map` in iteration order: revision ids, then branch labels -/
 def LMap.keys (m : LMap) : List (String × Id) := m.ids.map (fun i => (i, i)) ++ m.labelKeys
 
@@ -40,7 +50,7 @@ def revisionForIdent (m : LMap) : Nat → String → Option String → Except Er
       | some i => pure i
       | none =>
         -- partial lookup over the keys of the map that are revision ids (branch-label keys are skipped)
-        let cands := (m.keys.filter (fun k => k.1.length > 3 && k.1.startsWith rid && k.2 == k.1)).map (·.1)
+        let cands := (m.keys.filter (fun k => k.1.length > 3 && startsWithL k.1 rid && k.2 == k.1)).map (·.1)
         let cands ← match branchRev, checkBranch with
           | some _, some b => filterForLineageKeys m fuel cands b false
           | _, _ => pure cands
@@ -95,11 +105,7 @@ def resolveShares (m : LMap) : Nat → String → Except Err (List Id)
 def resolveRevisionNumber (m : LMap) : Nat → String → Except Err (List String × Option String)
   | 0, _ => .error .outOfFuel
   | fuel + 1, ident => do
-    let (label, rest) : Option String × String :=
-      match ident.splitOn "@" with
-      | [_] => (none, ident)
-      | l :: more => (some l, "@".intercalate more)
-      | [] => (none, ident)
+    let (label, rest) : Option String × String := splitFirstAt ident
     if rest == "heads" then
       match label with
       | some l =>
